@@ -199,4 +199,16 @@ CHECKS["C16"] = {
     "parts": [{"bin": "C16_probe", "part": "probe-build", "kind": "buildonly"}, {"kind": "script", "bin": "harness/c16_grid.py", "part": "grid"}],
 }
 
+_MPI_EXTRA = "-I/usr/lib/x86_64-linux-gnu/openmpi/include -I/usr/lib/x86_64-linux-gnu/openmpi/include/openmpi -DOMPI_SKIP_MPICXX"
+_MPI_LIBS = "-L/usr/lib/x86_64-linux-gnu/openmpi/lib -lmpi"
+CHECKS["C20"] = {
+    "registered": True,
+    "engine": "pmc-rt + mock MPI",
+    "technique": "stateless deviation-bounded exhaustive exploration of thread schedules and of the MPI environment's poll answers (pending/complete) on the MPI-enabled instrumented build, with MPI_Test/Testany/Testsome mocked in the harness executable",
+    "level_text": "For every completion mode 0-31, with and without a dedicated polling pool, with 1-2 outstanding requests, every combination of 'still pending' answers of the mock MPI and every thread schedule within the deviation bound is executed on the real polling code; each receiver must be signalled exactly once, only after the mock reported its request complete and with the received data visible, and pika::wait() must not return while a request is in flight (a lost completion is a stuck execution). A directed 34-request program holds back the first 33 requests until the last has completed (pika tests the polling vector in chunks of 32).",
+    "level_note": "MPI itself is mocked (requests are harness objects, completion is the explorer's choice); real OpenMPI progress and timing are not exercised; the MPIX continuation modes (32-39) need an MPI extension that is not installed; sequentially consistent interleavings; at most 2 non-canonical successor choices at blocking points per execution.",
+    "rule": "pmc-rt: modes x requests x poll answers (data choices, pending costs a deviation) x all schedules within the deviation bound",
+    "parts": [{"bin": "C20_mpi", "pika_build": "pika-mpi-mc", "extra": _MPI_EXTRA, "extralibs": _MPI_LIBS}],
+}
+
 PENDING = {}
